@@ -64,6 +64,7 @@ def run(ctx):
         ctx.sample({"kind": cases[i]["kind"], "shape": cases[i]["shape"]})
     vs = ctx.run_cases(binary, "codec", cases, timeout_ms=30000)
     _register(ctx, vs, cases)
+    ctx.traces_validated = len(cases)      # behaviours (encode/decode of one shape) replayed on the implementation
 
     # binding self-test: falsify the expectation of a few cases; the adapter must reject every one of them
     probe = [dict(cases[i], id=n, corrupt=True) for n, i in enumerate(
